@@ -130,6 +130,7 @@ type LFacts struct {
 	accessor  map[*types.Named]bool
 	roleSplit map[string]map[string]string
 	Unres     map[ssa.Instruction]bool // dynamic calls nothing resolved
+	rootsOf   map[int]map[string]bool
 }
 
 // walkable: bodies the walk descends into. The standard library and the compression/stream
@@ -1011,4 +1012,38 @@ func (L *LFacts) PathIn(prev map[int]int, id int) []string {
 		rev[i], rev[j] = rev[j], rev[i]
 	}
 	return rev
+}
+
+// RootsOf: the names of all roots from which ctx is reachable in the context graph (ctx.Root is
+// only the first discoverer).
+func (L *LFacts) RootsOf(ctx *LCtx) []string {
+	if L.rootsOf == nil {
+		L.rootsOf = map[int]map[string]bool{}
+		byID := map[int]*LCtx{}
+		for _, c := range L.Ctxs {
+			byID[c.ID] = c
+		}
+		for _, rt := range L.Roots {
+			name := fnName(rt.Fn)
+			seen := map[int]bool{rt.ID: true}
+			work := []*LCtx{rt}
+			for len(work) > 0 {
+				c := work[len(work)-1]
+				work = work[:len(work)-1]
+				m := L.rootsOf[c.ID]
+				if m == nil {
+					m = map[string]bool{}
+					L.rootsOf[c.ID] = m
+				}
+				m[name] = true
+				for id := range c.Succ {
+					if !seen[id] && byID[id] != nil {
+						seen[id] = true
+						work = append(work, byID[id])
+					}
+				}
+			}
+		}
+	}
+	return sortedKeys(L.rootsOf[ctx.ID])
 }
